@@ -688,7 +688,7 @@ def l_rol(info, a, b):
     new_cf = ExprOp("&", c ,ExprInt_from(a, 1))
     e.append(ExprAff(cf, new_cf))
     ### hack (only valid if b=1)
-    e.append(ExprAff(of, ExprOp("^", get_op_msb(c), new_cf)))
+    e.append(ExprAff(of, ExprOp("^", get_op_msb(c), new_cf[0:1])))
     e.append(ExprAff(a, c))
     return e
 
@@ -709,7 +709,7 @@ def rcl(info, a, b):
 
     e.append(ExprAff(cf, new_cf))
     ### hack (only valid if b=1)
-    e.append(ExprAff(of, ExprOp("^", get_op_msb(c), new_cf)))
+    e.append(ExprAff(of, ExprOp("^", get_op_msb(c), new_cf[0:1])))
     e.append(ExprAff(a, c))
     return e
 
